@@ -885,9 +885,11 @@ def items_C11(tier, seed, P):
           (1, [(0, 0, True, False)], 'selfclone1'), (2, [R(0, 1), R(1, 0)], 'ring2')]
     for nm, e in F.named_shapes(3).items():
         sh.append((3, e, nm))
+    sh.append((2, [R(0, 1), R(1, 0), (0, 0, True, 'noop')], 'ring2+noop-self@0'))
     if tier != 'quick':
         for nm, e in F.named_shapes(4).items():
             sh.append((4, e, nm))
+        sh.append((3, F.named_shapes(3)['ring3'] + [(1, 1, True, 'noop')], 'ring3+noop-self@1'))
     for (n, e, nm) in sh:
         for k in range(n):
             for seq in F.drop_sequences(n, n)[:3 if tier == 'quick' else None]:
@@ -1479,11 +1481,16 @@ def items_C09(tier, seed, P):
             shapes.append((3, e, F.describe(3, e)))
     R = lambda i, j: (i, j, True, False)
     shapes += [(2, [R(0, 1), R(0, 1), R(1, 0)], 'N2[0=>1 x2, 1=>0]'), (3, [R(0, 1), R(0, 1), R(1, 2), R(2, 1)], 'N3[tail x2 into ring]')]
+    # members that also carry a no-effect same-handle self adoption: a second (Loopback) key per node in every trace result
+    shapes += [(2, [R(0, 1), R(1, 0), (0, 0, True, 'noop')], 'ring2+noop-self@0'), (2, [R(0, 1), (1, 1, True, 'noop')], 'owner-target+noop-self@1'),
+               (3, F.named_shapes(3)['ring3'] + [(1, 1, True, 'noop')], 'ring3+noop-self@1')]
     for (n, e, nm) in shapes:
         base = F.build_ops(n, e, extras=True)
         for i in range(n):
             base.append({'op': 'downgrade', 'h': H(i), 'as': 'ow%d' % i})
         lays = std_layouts(n, tier, seed)[:4 if tier == 'quick' else 10]
+        if 'noop' in nm:
+            lays = lays + [('rank', tuple(range(n)), (2, 0, 1), 'kind', False), ('rank', tuple(range(n)), (1, 2, 0), 'obj', False)]
         if (n <= 2 and len(e) <= 2) or (tier != 'quick' and len(e) <= 3):
             lays = lays + [('fork',)]
         for seq in F.drop_sequences(n, n):
